@@ -119,6 +119,20 @@ def check_scenario(sc, res: Result, work: Work, rng, max_all=400, extra_random=3
         free_exploration(sc, res, rng, kind, ref, labels, case0, n=max(60, extra_random * 3))
 
 
+def check_large_scenario(sc, res: Result, rng, n=150):
+    """scenarios whose gathers are too wide for an exhaustive exploration of Async.tla (more than 32 awaitables in one gather: 2^n settled states): the
+    positional pairing is what TLC checks on the small plans; here the real code is driven along seeded random completion orders of the real pending sets
+    and every result must be the one obtained when nothing yields (and the independently computed one, if the scenario has it)"""
+    kind, ref, started = reference_run(sc)
+    case0 = {"scenario": sc.name, "describe": sc.describe}
+    if sc.expected is not None and (kind, ref) != ("ok", sc.expected):
+        res.violation(f"scenario {sc.name} ({sc.describe}): result {str(ref)[:400]} but every occurrence paired with its own value gives {str(sc.expected)[:400]}",
+                      dict(case0, kind="pairing"))
+        return
+    res.coverage.setdefault("plans", []).append({"plan": sc.name, "awaitables": len(started), "mode": f"{n} seeded random completion orders (too wide for TLC)"})
+    free_exploration(sc, res, rng, kind, ref, [], case0, n=n)
+
+
 def _strip(label):
     """'fc:901@a1#2' -> (('fc', '901'), 'a1')"""
     base = label.rsplit("#", 1)[0]
